@@ -1,13 +1,152 @@
 /-
   C08 — Bits: operators are fixed-width modular algebra touching only addressed bits.
   ONLY property theorems (and their non-vacuity examples) live here; helper lemmas are in Proofs/Lemmas.
+  Denotation of a vector: `b.size` and the bits `b.ival.testBit i` (bit 0 = first element of the sequence);
+  `WF b : b.ival < 2 ^ b.size` is the invariant "the payload does not exceed the size".
 -/
 import Model.Bits
+import Proofs.Lemmas.BitsBasic
 namespace Proofs.C08
-open Model Model.Bits
+open Model Model.Bits Model.Py Proofs.Lemmas.Bits
 
-theorem shl_wf (b : Bits) (i : Nat) : (b.shl i).WF := by
-  unfold WF shl mask
-  exact Nat.lt_of_le_of_lt Nat.and_le_right (Nat.sub_lt (Nat.two_pow_pos _) Nat.one_pos)
+/-! ## 1. Arithmetic and bitwise operators: width max(m,n), values modulo 2^w -/
+
+/-- `a + o` (also `a + int`, `int + a` through `ofNat`): size = the larger size, value = sum modulo 2^w -/
+theorem add_spec (a o : Bits) :
+    (a.add o).size = max a.size o.size ∧ (a.add o).ival = (a.ival + o.ival) % 2 ^ max a.size o.size := by
+  simp [add, wsize_eq_max]
+
+/-- `a - o`: size = the larger size, value = difference modulo 2^w (stated in ℤ with the mathematical `%`) -/
+theorem sub_spec (a o : Bits) :
+    (a.sub o).size = max a.size o.size ∧
+    ((a.sub o).ival : Int) = ((a.ival : Int) - (o.ival : Int)) % (2 ^ max a.size o.size : Nat) := by
+  refine ⟨by simp [sub, wsize_eq_max], ?_⟩
+  simp only [sub, wsize_eq_max]
+  generalize hM : 2 ^ max a.size o.size = M
+  have hMpos : 0 < M := by rw [← hM]; exact Nat.two_pow_pos _
+  have hr : o.ival % M < M := Nat.mod_lt _ hMpos
+  have h1 : ((a.ival + (M - o.ival % M) : Nat) : Int) = (a.ival : Int) - (o.ival : Int) + (M : Int) * ((o.ival / M : Nat) + 1) := by
+    have := Nat.div_add_mod o.ival M
+    have h2 : ((M * (o.ival / M) : Nat) : Int) = (M : Int) * ((o.ival / M : Nat) : Int) := by simp
+    have h3 : (M : Int) * (((o.ival / M : Nat) : Int) + 1) = (M : Int) * ((o.ival / M : Nat) : Int) + M := by
+      rw [Int.mul_add, Int.mul_one]
+    omega
+  rw [Int.natCast_emod, h1, Int.add_mul_emod_self_left]
+
+/-- `a - o` characterised in ℕ: the result is the unique `r < 2^w` with `r + o ≡ a (mod 2^w)` -/
+theorem sub_add_cancel (a o : Bits) :
+    ((a.sub o).ival + o.ival) % 2 ^ max a.size o.size = a.ival % 2 ^ max a.size o.size := by
+  simp only [sub, wsize_eq_max]
+  generalize hM : 2 ^ max a.size o.size = M
+  have hMpos : 0 < M := by rw [← hM]; exact Nat.two_pow_pos _
+  have hr : o.ival % M < M := Nat.mod_lt _ hMpos
+  rw [Nat.mod_add_mod]
+  have h : a.ival + (M - o.ival % M) + o.ival = a.ival + M * (o.ival / M + 1) := by
+    have := Nat.div_add_mod o.ival M
+    rw [Nat.mul_add, Nat.mul_one]; omega
+  rw [h, Nat.add_mul_mod_self_left]
+
+/-- `&`, `|`, `^`: size = the larger size, bitwise on every position -/
+theorem and_bit (a o : Bits) (i : Nat) :
+    (a.and o).size = max a.size o.size ∧ (a.and o).ival.testBit i = (a.ival.testBit i && o.ival.testBit i) := by
+  simp [Bits.and, wsize_eq_max]
+theorem or_bit (a o : Bits) (i : Nat) :
+    (a.or o).size = max a.size o.size ∧ (a.or o).ival.testBit i = (a.ival.testBit i || o.ival.testBit i) := by
+  simp [Bits.or, wsize_eq_max]
+theorem xor_bit (a o : Bits) (i : Nat) :
+    (a.xor o).size = max a.size o.size ∧ (a.xor o).ival.testBit i = (a.ival.testBit i ^^ o.ival.testBit i) := by
+  simp [Bits.xor, wsize_eq_max]
+
+/-- `~b`: same size, every bit below the size flipped, nothing above it (for a well-formed operand) -/
+theorem inv_bit (b : Bits) (hb : b.WF) (i : Nat) :
+    b.inv.size = b.size ∧ b.inv.ival.testBit i = (decide (i < b.size) && !b.ival.testBit i) := by
+  refine ⟨rfl, ?_⟩
+  simp only [inv, mask, Nat.testBit_xor, Nat.testBit_two_pow_sub_one]
+  by_cases hi : i < b.size
+  · simp [hi]
+  · simp [hi, wf_testBit hb (Nat.le_of_not_lt hi)]
+
+/-- `~b` as a value: `2^n - 1 - b` -/
+theorem inv_val (b : Bits) (hb : b.WF) : b.inv.ival = 2 ^ b.size - 1 - b.ival := by
+  apply Nat.eq_of_testBit_eq
+  intro i
+  rw [(inv_bit b hb i).2]
+  have h : b.ival ≤ 2 ^ b.size - 1 := Nat.le_sub_one_of_lt hb
+  by_cases hi : i < b.size
+  · have := Nat.testBit_two_pow_sub_succ hb i
+    simp only [hi, decide_true, Bool.true_and] at this ⊢
+    rw [← this]; congr 1; omega
+  · have hlt : 2 ^ b.size - 1 - b.ival < 2 ^ b.size := by have := Nat.two_pow_pos b.size; omega
+    simp [hi, testBit_of_lt hlt (Nat.le_of_not_lt hi)]
+
+/-- unary minus: computed in the operand's size, value `(-b) mod 2^n` -/
+theorem neg_spec (b : Bits) :
+    b.neg.size = b.size ∧ ((b.neg.ival : Int) = (-(b.ival : Int)) % (2 ^ b.size : Nat)) := by
+  refine ⟨rfl, ?_⟩
+  simp only [neg, ofNatSz_ival, Nat.mod_mod]
+  generalize hM : 2 ^ b.size = M
+  have hMpos : 0 < M := by rw [← hM]; exact Nat.two_pow_pos _
+  have hr : b.ival % M < M := Nat.mod_lt _ hMpos
+  have h1 : ((M - b.ival % M : Nat) : Int) = -(b.ival : Int) + (M : Int) * ((b.ival / M : Nat) + 1) := by
+    have := Nat.div_add_mod b.ival M
+    have h2 : ((M * (b.ival / M) : Nat) : Int) = (M : Int) * ((b.ival / M : Nat) : Int) := by simp
+    have h3 : (M : Int) * (((b.ival / M : Nat) : Int) + 1) = (M : Int) * ((b.ival / M : Nat) : Int) + M := by
+      rw [Int.mul_add, Int.mul_one]
+    omega
+  rw [Int.natCast_emod, h1, Int.add_mul_emod_self_left]
+
+/-- unary minus is the additive inverse: `a + (-a) = 0 (mod 2^m)`, for every size (0 included) and value -/
+theorem add_neg (a : Bits) : a.add a.neg = ⟨0, a.size⟩ := by
+  have hw : wsize a a.neg = a.size := by simp [wsize, neg]
+  unfold add
+  rw [hw]
+  simp only [neg, ofNatSz_ival, Nat.mod_mod]
+  congr 1
+  generalize hM : 2 ^ a.size = M
+  have hMpos : 0 < M := by rw [← hM]; exact Nat.two_pow_pos _
+  have hr : a.ival % M < M := Nat.mod_lt _ hMpos
+  by_cases h0 : a.ival % M = 0
+  · rw [h0, Nat.sub_zero, Nat.mod_self, Nat.add_zero, h0]
+  · rw [Nat.mod_eq_of_lt (a := M - a.ival % M) (by omega)]
+    have : a.ival + (M - a.ival % M) = M * (a.ival / M + 1) := by
+      have := Nat.div_add_mod a.ival M
+      rw [Nat.mul_add, Nat.mul_one]; omega
+    rw [this, Nat.mul_mod_right]
+theorem neg_add (a : Bits) : a.neg.add a = ⟨0, a.size⟩ := by
+  have h := add_neg a
+  have hw : wsize a.neg a = wsize a a.neg := by simp [wsize, neg]
+  simp only [add, hw, Nat.add_comm a.neg.ival] at h ⊢
+  exact h
+
+/-- `a * m` (a `Bits` or an int multiplier): computed in the LEFT operand's size -/
+theorem mul_spec (a : Bits) (m : Nat) : (a.mul m).size = a.size ∧ (a.mul m).ival = (a.ival * m) % 2 ^ a.size := by
+  simp [mul]
+
+/-- an int operand (either side) is first turned into `Bits(v)`: size = `bit_length`, i.e. the least width holding `v` -/
+theorem ofNat_spec (v : Nat) :
+    (ofNat v).ival = v ∧ v < 2 ^ (ofNat v).size ∧ (∀ n, v < 2 ^ n → (ofNat v).size ≤ n) :=
+  ⟨rfl, bitLength_lt v, fun _ h => bitLength_le_of_lt h⟩
+
+/-- `int - a` (after the fix): the difference modulo 2^w with w = max(bit_length, size), like `a + int` -/
+theorem rsub_spec (a : Bits) (v : Nat) :
+    (a.rsub v).size = max (bitLength v) a.size ∧
+    ((a.rsub v).ival : Int) = ((v : Int) - (a.ival : Int)) % (2 ^ max (bitLength v) a.size : Nat) :=
+  sub_spec (ofNat v) a
+
+/-- `int + a` = `a + int` (the reflected operators delegate), width max(size, bit_length) -/
+theorem radd_spec (a : Bits) (v : Nat) :
+    (a.add (ofNat v)).size = max a.size (bitLength v) ∧
+    (a.add (ofNat v)).ival = (a.ival + v) % 2 ^ max a.size (bitLength v) :=
+  add_spec a (ofNat v)
+
+/-- `+ & | ^` give the same result in either operand order -/
+theorem add_comm (a o : Bits) : a.add o = o.add a := by
+  simp only [add, wsize_eq_max, Nat.max_comm a.size, Nat.add_comm a.ival]
+theorem and_comm (a o : Bits) : a.and o = o.and a := by
+  simp only [Bits.and, wsize_eq_max, Nat.max_comm a.size, Nat.and_comm a.ival]
+theorem or_comm (a o : Bits) : a.or o = o.or a := by
+  simp only [Bits.or, wsize_eq_max, Nat.max_comm a.size, Nat.or_comm a.ival]
+theorem xor_comm (a o : Bits) : a.xor o = o.xor a := by
+  simp only [Bits.xor, wsize_eq_max, Nat.max_comm a.size, Nat.xor_comm a.ival]
 
 end Proofs.C08
